@@ -48,6 +48,34 @@ def campaign(c):
             if F: key = (k[0], len(F), hash(srcf))
         c.count('scenario:' + k[0])
         c.case(key, dict(kind=k[0], src=srcf.decode()[:400]) if key else None)
+    # tunnel outer packets: every kind x session parameters (the GRE protocol type is only a label) x raw omitted / false / true
+    sess = [('vxlan::session(A:1000, B:4789%s)', ['', ', sessionid: 0', ', sessionid: 16777215']),
+            ('gre::session(A, B%s)', [', 0x0800', ', 0x86dd', ', 0x6558', ', 0x88be', ', 0', ', 0xffff', ', 0x0806', ', 2048']),
+            ('erspan1::session(A, B%s)', ['']), ('erspan2::session(A, B%s)', [''])]
+    inner = 'eth::frame("|000000000001|", "|000000000002|", "|c0ffee|")'
+    for tmpl, params in sess:
+        for pi, par in enumerate(params):
+            r = c.rng.fork('tun-%s-%d' % (tmpl[:4], pi))
+            a, b = netscen.addr(r), netscen.addr(r)
+            recs = {}
+            for rawarg in ('', ', raw: false', ', raw: true'):
+                prog = ('import eth;\nimport vxlan;\nimport gre;\nimport erspan1;\nimport erspan2;\nlet t = %s;\nt.encap(%s);\nt.encap(%s);\n'
+                        % ((tmpl % (par + rawarg)).replace('A', netscen.ip(a)).replace('B', netscen.ip(b)), inner, inner)).encode()
+                impl, model = progdiff.run_both(c, prog)
+                progdiff.compare(c, prog, impl, model, 'eth:tunnel-outer', project=project(rawarg.endswith('true')), times=False)
+                recs[rawarg] = ([x[1] for x in progdiff.pcap_records(impl['file'] or b'')], prog.decode())
+            R = recs[', raw: true'][0]
+            for rawarg in ('', ', raw: false'):
+                F, ps = recs[rawarg]
+                want = bytes([0, 2]) + b.to_bytes(4, 'big') + bytes([0, 2]) + a.to_bytes(4, 'big') + b'\x08\x00'
+                if len(F) != 2 or len(R) != 2:
+                    c.violation('eth:tunnel-count', 'tunnel session emits %d framed / %d raw records for two packets' % (len(F), len(R)), dict(src=ps))
+                elif any(f[14:] != x for f, x in zip(F, R)):
+                    c.violation('eth:raw-differs', 'tunnel outer packet: raw mode changes more than the 14-byte Ethernet header (or the header is missing without raw)', dict(src=ps))
+                elif any(netscen.facts(c, f, False) is None or netscen.facts(c, f, False)['ethok'] != 'true' or f[:14] != want for f in F):
+                    c.violation('eth:macs', 'tunnel outer packet: Ethernet header is not (mac(dst ip), mac(src ip), 0x0800)', dict(src=ps))
+            c.count('tunnel-outer-grid')
+            c.case(('tunnel-outer', tmpl, par), dict(kind='tunnel-outer', session=tmpl % par))
     # eth::frame wire order, eth::from_ip
     for i in range(30 if c.quick else 500):
         r = c.rng.fork('frame%d' % i)
